@@ -17,7 +17,7 @@ FUNCTIONS = ["ckl.nodes.NodeBlock.evaluate", "ckl.nodes.NodeError", "ckl.errors.
              "ckl.parser.parse_block (catch/finally clauses)", "ckl.nodes.NodeIf/NodeFor/NodeReturn/NodeBreak/NodeContinue",
              "ckl.functions.FuncLambda.execute", "ckl.interpreter.Interpreter.interpret"]
 OUTSIDE = ["the own effect of return/break/continue inside a finally part (only: it must not swallow an error in flight)",
-           "quick tier: second fault is an error or a return, error values of 3 kinds", "nesting deeper than the bound", "return/break/continue inside a finally part (unspecified)",
+           "quick tier: second fault is an error or a return, first fault not a division by zero, error values of 3 kinds", "nesting deeper than the bound", "return/break/continue inside a finally part (unspecified)",
            "more than two fault points firing in one run", "the hosts run.py / repl.py"]
 REACH = {"normal", "caught", "escaped", "returned"}
 
@@ -178,10 +178,11 @@ def run(ctx, cell):
     # never swallow an error that is in flight (see tdsl.FinCtl)
     if quick:
         ctx.assume(b_or(kind2 == 0, kind2 == 3))
+        ctx.assume(kind != 2)          # kinds 1 and 2 are both runtime 'ERROR's; the thorough tier keeps both
     evk = EVKINDS[ctx.choice("evk", 3 if quick else len(EVKINDS))]
     ev = mkev(ctx, "ev", evk)
     ev2 = mkev(ctx, "ev2", "int")
-    rv = vint(ctx.int("rv", 50, 52))
+    rv = vint(ctx.int("rv", 50, 51 if quick else 52))
     rv2 = vint(60)
     vals = {"sel": sel, "sel2": sel2, "kind": kind, "kind2": kind2, "ev": ev, "ev2": ev2, "rv": rv, "rv2": rv2,
             "items": [vint(1), vint(2)]}
